@@ -140,6 +140,8 @@ class USBDevice(object):
         return list(self._ports)
 
     def getSerialNumber(self):
+        if self.backend is not None and getattr(self.backend, 'unplugged', False):
+            raise USBErrorNoDevice()     # reading the string descriptor opens the device
         if self._serial is None:
             raise USBErrorAccess()
         return self._serial
@@ -177,6 +179,8 @@ class USBDeviceHandle(object):
             self._b().fault('claim')
         if self.closed:
             raise USBErrorNoDevice()
+        if interface in self.kernel_driver:
+            raise USBErrorBusy()          # libusb: LIBUSB_ERROR_BUSY if another program or driver has claimed the interface
         for h in self._device.handles:
             if h is not self and not h.closed and interface in h.claimed:
                 raise USBErrorBusy()      # libusb: LIBUSB_ERROR_BUSY if another handle has claimed the interface
